@@ -2,5 +2,5 @@
 from checks import seqcheck
 
 def main(tier, seed, replay):
-    return seqcheck.main("C02", "Properties/C02.v", tier, seed, replay, scenarios=['basic','faults','crash','boundary','cache','pool','storm'],
+    return seqcheck.main("C02", "Properties/C02.v", tier, seed, replay, scenarios=['basic','faults','crash','boundary','cache','pool','midround','straddle','storm'],
                          own_prefixes=tuple("C02".split(",")))
